@@ -3284,6 +3284,9 @@ impl GraphEngine {
         );
 
         for (key, value) in &properties {
+            if Self::is_reserved_field(key) {
+                continue;
+            }
             tensor.set(key, TensorValue::Scalar(value.to_scalar()));
         }
 
@@ -3377,6 +3380,9 @@ impl GraphEngine {
         );
 
         for (key, value) in &properties {
+            if Self::is_reserved_field(key) {
+                continue;
+            }
             tensor.set(key, TensorValue::Scalar(value.to_scalar()));
         }
 
@@ -3628,6 +3634,15 @@ impl GraphEngine {
         })
     }
 
+    /// Names starting with `_` are the record's own fields (`_from`, `_to`,
+    /// `_directed`, `_labels`, ...). Reads never return them as properties;
+    /// a caller-supplied property of such a name is ignored on write, so that
+    /// it cannot overwrite (or, as `Null`, remove) the endpoints, direction or
+    /// labels the adjacency lists and indexes were built from.
+    fn is_reserved_field(name: &str) -> bool {
+        name.starts_with('_')
+    }
+
     /// Update a node's labels and/or properties.
     ///
     /// Pass `None` to leave labels unchanged. Properties are merged with
@@ -3677,6 +3692,9 @@ impl GraphEngine {
         }
 
         for (prop_key, value) in &properties {
+            if Self::is_reserved_field(prop_key) {
+                continue;
+            }
             // Unindex old value if it exists
             if let Some(old_value) = old_node.properties.get(prop_key) {
                 self.index_remove(
@@ -3857,6 +3875,9 @@ impl GraphEngine {
         let mut changed_props: HashMap<String, PropertyValue> = HashMap::new();
 
         for (prop_key, value) in &properties {
+            if Self::is_reserved_field(prop_key) {
+                continue;
+            }
             // Unindex old value if it exists
             if let Some(old_value) = old_edge.properties.get(prop_key) {
                 self.index_remove(
@@ -8244,6 +8265,9 @@ impl GraphEngine {
         );
 
         for (key, value) in properties {
+            if Self::is_reserved_field(key) {
+                continue;
+            }
             tensor.set(key, TensorValue::Scalar(value.to_scalar()));
         }
 
@@ -8388,6 +8412,9 @@ impl GraphEngine {
         );
 
         for (key, value) in properties {
+            if Self::is_reserved_field(key) {
+                continue;
+            }
             tensor.set(key, TensorValue::Scalar(value.to_scalar()));
         }
 
